@@ -3,7 +3,7 @@ CONFIG = {'gen': ['ConstsC16'],
  'rule': 'cases = binary SIDs (every count 0..15 x boundary authorities exhaustively, then random counts/values, truncations, oversized '
          'counts, wrong revisions, trailing bytes, random bytes) and distinguished names (random RDN sequences in AD text form with '
          "escaped specials incl. '\\,DC=' inside values, plus raw text); distinct = distinct input line; non-trivial = implementation "
-         'output is a non-empty value',
+         'output is a non-empty value DN values also consist of whole multi-byte characters and of format verbs.',
  'assumptions': ['fmt %d and strings.Join/Split/HasPrefix/TrimPrefix/TrimSuffix behave as modelled',
                  "Lean's Nat.repr is taken as the definition of decimal notation"],
  'trusted': [],
